@@ -146,7 +146,7 @@ class Scn:
         if track and self.B(frm, asset) >= total and not kw.get("mut"):
             self.add(frm, asset, -total)
             for a, v in outs:
-                if not (a == "BURN" and h >= self.sched("V202")):
+                if not ((a == "BURN" and h >= self.sched("V202")) or (a == "OLDBURN" and h < self.sched("V202"))):
                     self.add(a, asset, v)
         return e
 
@@ -280,7 +280,7 @@ def mixed_chain(seed, name="mixed", blocks=14, users=6, sched=None, unrated_p=0.
             elif kind == "burn":
                 s.transfer(h, u, t, [("BURN", amt // 2), (rnd.choice(us), amt - amt // 2)])
             elif kind == "null":
-                s.transfer(h, u, t, [("NULL", amt // 2), (rnd.choice(us), amt - amt // 2)])
+                s.transfer(h, u, t, [("OLDBURN", amt // 2), (rnd.choice(us), amt - amt // 2)])
             elif kind == "conv":
                 d = rnd.choice([x for x in dests if x != t])
                 s.convert(h, u, t, amt, d, track=(d in ("pUSD", "pXBT") and not (d == "PEG")))
